@@ -3,4 +3,4 @@
 h=$1; shift
 mkdir -p /verif/logs
 cd /verif/harness || exit 2
-CARGO_NET_OFFLINE=true timeout 3000 cargo kani -Z stubbing -Z unstable-options --harness-timeout 2400s --output-format terse --exact --target-dir /verif/target/p_$h "$@" --harness gen::$h > /verif/logs/probe_$h.log 2>&1
+CARGO_NET_OFFLINE=true timeout 3000 cargo kani -Z stubbing -Z unstable-options --harness-timeout 2400s --output-format terse --exact --target-dir /verif/target/p_$h --harness gen::$h "$@" > /verif/logs/probe_$h.log 2>&1
